@@ -156,6 +156,8 @@ def check_C09(tier, seed):
     res = Result("C09", tier, seed, "exploration")
     wd = workdir("C09")
     insts = universe.semantic_universe(tier, seed + 200, stress=True)
+    # near-valid queries (one or two targeted mutations of a valid one): whatever the frontend still accepts must execute without panicking
+    insts = universe.renumber(insts + universe.mutated_universe(tier, seed + 200))
     obs = observe(insts, wd, "ir,batch:2,prune", seed)
     n_exec = 0; seen = set(); nontrivial = 0
     for inst, o in zip(insts, obs):
@@ -182,7 +184,7 @@ def check_C09(tier, seed):
             if ex["rows"]: res.sample(brief(inst, {"rows": len(ex["rows"])}), cap=3)
     res.cov["evaluations"] = n_exec
     res.cov["distinct_nontrivial"] = nontrivial
-    res.cov["rule"] = ("every instance of the semantic universe (stress variant: non-regex strings as regex arguments, count filter arguments -1/0/big, repeated tag uses) that the real frontend "
+    res.cov["rule"] = ("every instance of the semantic universe (stress variant: non-regex strings as regex arguments, count filter arguments -1/0/big, repeated tag uses) and of the mutated universe (gen/badq.py) that the real frontend "
                        "and argument validation accept, executed under catch_unwind with the plain, two batching and the hint-consuming adapter; distinct by (query, graph, args); non-trivial = returns at least one row")
     res.assumptions += ["GraphAdapter and its wrappers honour the adapter contract (checked by check_adapter_invariants in C25's run)"]
     return res
